@@ -372,7 +372,76 @@ fn strip_tail_return_expr(e: &mut syn::Expr) {
     }
 }
 
+/// `Self` inside an impl is the impl's type
+struct SelfResolver {
+    ty: proc_macro2::TokenStream,
+    name: String,
+}
+
+fn resolve_self_in_stream(ts: proc_macro2::TokenStream, with: &proc_macro2::TokenStream) -> proc_macro2::TokenStream {
+    let mut out = proc_macro2::TokenStream::new();
+    for tt in ts {
+        match tt {
+            proc_macro2::TokenTree::Ident(ref i) if i == "Self" => out.extend(with.clone()),
+            proc_macro2::TokenTree::Group(g) => {
+                let mut ng = proc_macro2::Group::new(g.delimiter(), resolve_self_in_stream(g.stream(), with));
+                ng.set_span(g.span());
+                out.extend(std::iter::once(proc_macro2::TokenTree::Group(ng)));
+            }
+            other => out.extend(std::iter::once(other)),
+        }
+    }
+    out
+}
+
+impl VisitMut for SelfResolver {
+    fn visit_path_mut(&mut self, p: &mut syn::Path) {
+        if p.leading_colon.is_none() && p.segments.first().map_or(false, |s| s.ident == "Self" && s.arguments.is_empty()) && p.segments.len() >= 2 {
+            // Self::X  ->  Type::X   (a bare `Self` as a type or constructor is left alone: it may carry generics)
+            let first = p.segments.first_mut().unwrap();
+            first.ident = proc_macro2::Ident::new(&self.name, first.ident.span());
+        }
+        visit_mut::visit_path_mut(self, p);
+    }
+    fn visit_macro_mut(&mut self, m: &mut syn::Macro) {
+        let _ = &self.ty;
+        visit_mut::visit_macro_mut(self, m);
+    }
+}
+
+fn is_debug_assert(m: &syn::Macro) -> bool {
+    m.path.is_ident("debug_assert") || m.path.is_ident("debug_assert_eq") || m.path.is_ident("debug_assert_ne")
+}
+
 impl VisitMut for Normalizer {
+    fn visit_item_impl_mut(&mut self, i: &mut syn::ItemImpl) {
+        // resolve `Self::` to the type's name (simple named types only)
+        if let syn::Type::Path(tp) = &*i.self_ty {
+            if let Some(last) = tp.path.segments.last() {
+                let name = last.ident.to_string();
+                let mut r = SelfResolver { ty: quote::ToTokens::to_token_stream(&i.self_ty), name };
+                for it in i.items.iter_mut() {
+                    r.visit_impl_item_mut(it);
+                }
+            }
+        }
+        visit_mut::visit_item_impl_mut(self, i);
+    }
+
+    fn visit_expr_struct_mut(&mut self, st: &mut syn::ExprStruct) {
+        visit_mut::visit_expr_struct_mut(self, st);
+        // named fields in alphabetical order (initialisers in this code base are side-effect free)
+        if st.fields.iter().all(|f| matches!(f.member, syn::Member::Named(_))) && st.fields.len() > 1 {
+            let mut fields: Vec<syn::FieldValue> = st.fields.iter().cloned().collect();
+            fields.sort_by_key(|f| sm::ts(&f.member));
+            let trailing = st.fields.trailing_punct();
+            st.fields = fields.into_iter().collect();
+            if trailing {
+                st.fields.push_punct(Default::default());
+            }
+        }
+    }
+
     fn visit_item_fn_mut(&mut self, f: &mut syn::ItemFn) {
         visit_mut::visit_item_fn_mut(self, f);
         strip_tail_return(&mut f.block);
@@ -384,6 +453,12 @@ impl VisitMut for Normalizer {
     }
 
     fn visit_block_mut(&mut self, b: &mut syn::Block) {
+        // debug assertions state invariants; they are not part of the behaviour the rules read
+        b.stmts.retain(|st| match st {
+            syn::Stmt::Macro(m) => !is_debug_assert(&m.mac),
+            syn::Stmt::Expr(syn::Expr::Macro(m), _) => !is_debug_assert(&m.mac),
+            _ => true,
+        });
         // `X.extend(ITER.map(|P| BODY));`  ->  `for P in ITER { X.push(BODY); }`
         for st in b.stmts.iter_mut() {
             let rewritten: Option<syn::Stmt> = match st {
@@ -506,6 +581,21 @@ impl VisitMut for Normalizer {
         }
         if let Some(r) = replacement {
             *e = r;
+        }
+        // `x = x + e` / `x = x - e`  ->  `x += e` / `x -= e`
+        if let syn::Expr::Assign(a) = e {
+            if let syn::Expr::Binary(b) = &*a.right {
+                let compound = match b.op {
+                    syn::BinOp::Add(_) => Some(syn::BinOp::AddAssign(Default::default())),
+                    syn::BinOp::Sub(_) => Some(syn::BinOp::SubAssign(Default::default())),
+                    _ => None,
+                };
+                if let Some(op) = compound {
+                    if sm::tsc(&a.left) == sm::tsc(&b.left) && a.attrs.is_empty() {
+                        *e = syn::Expr::Binary(syn::ExprBinary { attrs: vec![], left: a.left.clone(), op, right: b.right.clone() });
+                    }
+                }
+            }
         }
         // parentheses around an expression that binds tighter than anything are noise
         loop {
